@@ -332,6 +332,16 @@ def closed(prog, fi, e, depth=3):
     return out
 
 
+def synthetic_method(ci, name, body_expr):
+    """FuncInfo of `def name(self): return <body_expr>` in class ci: gives an expression that lives in the class
+    body (the lambda of `NAME = property(lambda self: ...)`) the scope `closed` / `resolve_callee` need."""
+    a = ast.arguments(posonlyargs=[], args=[ast.arg(arg="self")], vararg=None, kwonlyargs=[], kw_defaults=[], kwarg=None, defaults=[])
+    fn = ast.FunctionDef(name=name, args=a, body=[ast.Return(value=body_expr)], decorator_list=[], returns=None, type_comment=None, type_params=[])
+    ast.copy_location(fn, body_expr)
+    ast.fix_missing_locations(fn)
+    return FuncInfo(ci.qn + "." + name, fn, ci.module, ci, None)
+
+
 def self_calls(fi, name):
     """Calls `self.<name>(...)` in fi (receiver and bound-method aliases resolved)."""
     out = []
@@ -744,3 +754,293 @@ def poly_degree(p, atom):
             if a == atom:
                 d = max(d, k)
     return d
+
+
+# ---------------------------------------------------------------------------
+# exception classes: the class hierarchy including the builtin classes under every name they go by
+#
+# Engine gap worked around here: model.Program.mro() knows the builtin exceptions by their bare name only, so a
+# base spelled `builtins.TimeoutError` (or imported `from builtins import TimeoutError as X`) is a leaf for it,
+# and `IOError` / `socket.error` / `asyncio.TimeoutError` (aliases of OSError / TimeoutError since 3.3 / 3.11,
+# the package requires >= 3.11) are classes of their own.
+
+_EXC_ALIAS = {
+    "IOError": "OSError",
+    "EnvironmentError": "OSError",
+    "WindowsError": "OSError",
+    "socket.error": "OSError",
+    "select.error": "OSError",
+    "os.error": "OSError",
+    "socket.timeout": "TimeoutError",
+    "asyncio.TimeoutError": "TimeoutError",
+    "asyncio.exceptions.TimeoutError": "TimeoutError",
+    "concurrent.futures.TimeoutError": "TimeoutError",
+}
+
+
+def canon_exc(q):
+    if q.startswith("builtins."):
+        q = q[len("builtins."):]
+    return _EXC_ALIAS.get(q, q)
+
+
+def exc_mro(prog, qn):
+    from ..model import BUILTIN_EXC
+
+    out, seen = [], set()
+
+    def rec(q):
+        q = canon_exc(q)
+        if q in seen:
+            return
+        seen.add(q)
+        out.append(q)
+        if q in prog.classes:
+            for b in prog.classes[q].bases:
+                rec(b)
+        elif BUILTIN_EXC.get(q):
+            rec(BUILTIN_EXC[q])
+
+    rec(qn)
+    return out
+
+
+def exc_is_subclass(prog, a, b):
+    return canon_exc(b) in exc_mro(prog, a)
+
+
+def class_aware_interp(E):
+    """The small-scope evaluator of rules/_kit_c02.py (E) with `isinstance` / `except` on an individual of known
+    class decided by the hierarchy above."""
+    from ..model import BUILTIN_EXC
+
+    class _Interp(E.Interp):
+        def is_instance(self, v, c, node=None):
+            if isinstance(v, E.Obj) and v.cls is not None and isinstance(c, E.ClassRef) and (v.name, c.qn) not in self.isa:
+                return exc_is_subclass(self.prog, v.cls, c.qn)
+            return super().is_instance(v, c, node)
+
+        def global_ref(self, qn):
+            if canon_exc(qn) in BUILTIN_EXC and qn not in self.prog.classes:
+                return E.ClassRef(canon_exc(qn))
+            return super().global_ref(qn)
+
+    return _Interp
+
+
+# ---------------------------------------------------------------------------
+# where the value of an attribute of a freshly built object comes from
+
+
+def parent_map(root):
+    pm = {}
+    for n in ast.walk(root):
+        for c in ast.iter_child_nodes(n):
+            pm[id(c)] = n
+    return pm
+
+
+def _literal_elts(e):
+    if isinstance(e, (ast.Tuple, ast.List, ast.Set)) and e.elts and all(isinstance(x, ast.Constant) for x in e.elts):
+        return [x.value for x in e.elts]
+    return None
+
+
+def literal_bindings(root, node, name, parents=None):
+    """The constants the name takes at `node` when it is the variable of an enclosing `for name in (c1, c2, ...)`
+    statement or comprehension generator over a literal collection of constants (table-driven code); else None."""
+    parents = parents or parent_map(root)
+    cur = node
+    while id(cur) in parents:
+        par = parents[id(cur)]
+        if isinstance(par, (ast.For, ast.AsyncFor)) and cur is not par.iter and isinstance(par.target, ast.Name) and par.target.id == name:
+            it = par.iter
+            if isinstance(it, ast.Name) and isinstance(root, (ast.FunctionDef, ast.AsyncFunctionDef)):
+                it = resolve_local(root, it)
+            return _literal_elts(it)
+        if isinstance(par, (ast.ListComp, ast.SetComp, ast.GeneratorExp, ast.DictComp)):
+            for g in par.generators:
+                if isinstance(g.target, ast.Name) and g.target.id == name and cur is not g.iter:
+                    it = g.iter
+                    if isinstance(it, ast.Name) and isinstance(root, (ast.FunctionDef, ast.AsyncFunctionDef)):
+                        it = resolve_local(root, it)
+                    return _literal_elts(it)
+        if par is root:
+            break
+        cur = par
+    return None
+
+
+def const_keys(root, node, key, parents=None):
+    """[(constant value, {loop variable: Constant})] the key expression can take at `node`: a constant expression,
+    or the variable of an enclosing loop over a literal collection.  None when not determined."""
+    try:
+        return [(norm.consteval(resolve_local(root, key) if isinstance(root, (ast.FunctionDef, ast.AsyncFunctionDef)) else key), {})]
+    except norm.NormError:
+        pass
+    if isinstance(key, ast.Name):
+        vals = literal_bindings(root, node, key.id, parents)
+        if vals is not None:
+            return [(v, {key.id: ast.Constant(value=v)}) for v in vals]
+    return None
+
+
+def attr_stores(root, attr, unknown=None):
+    """[(receiver expr, value expr or None, node)] for every write of `<recv>.<attr>` below root: assignment
+    (plain, annotated, as element of a tuple target -> value None), augmented assignment / del (value None),
+    setattr(recv, "<attr>", v) -- the attribute name a constant or the variable of an enclosing loop over a
+    literal collection of names (the value is then the instance for that name).  setattr calls whose attribute
+    name is not determined are collected in `unknown` as (receiver, node)."""
+    out = []
+    parents = None
+    for n in ast.walk(root):
+        if isinstance(n, (ast.Assign, ast.AnnAssign)):
+            tg = n.targets if isinstance(n, ast.Assign) else [n.target]
+            for t in tg:
+                if isinstance(t, ast.Attribute) and t.attr == attr:
+                    if getattr(n, "value", None) is not None:
+                        out.append((t.value, n.value, n))
+                elif isinstance(t, (ast.Tuple, ast.List)):
+                    for tt in ast.walk(t):
+                        if isinstance(tt, ast.Attribute) and tt.attr == attr and isinstance(tt.ctx, ast.Store):
+                            out.append((tt.value, None, n))
+        elif isinstance(n, ast.AugAssign) and isinstance(n.target, ast.Attribute) and n.target.attr == attr:
+            out.append((n.target.value, None, n))
+        elif isinstance(n, ast.Delete):
+            for t in n.targets:
+                if isinstance(t, ast.Attribute) and t.attr == attr:
+                    out.append((t.value, None, n))
+        elif isinstance(n, ast.Call) and chain(n.func) in ("setattr", "object.__setattr__", "delattr") and not n.keywords and len(n.args) == (2 if chain(n.func) == "delattr" else 3):
+            parents = parents or parent_map(root)
+            ks = const_keys(root, n, n.args[1], parents)
+            if ks is None:
+                if unknown is not None:
+                    unknown.append((n.args[0], n))
+                continue
+            for kv, env in ks:
+                if kv == attr:
+                    out.append((n.args[0], subst(n.args[2], env) if len(n.args) == 3 else None, n))
+    return out
+
+
+def dict_entry(fi, e, key, at, depth=4):
+    """The value expression stored under the constant `key` in the dict the expression e builds -- a dict display,
+    dict(k=v, ...), a dict comprehension over a literal collection of names (instantiated for `key`), through
+    `**` / `|` merges (the last one wins) -- or None when the dict has no such entry.  AnalysisError when the
+    dict is not one of these."""
+    def refuse():
+        raise AnalysisError("%s: the mapping `%s` is built in a way outside the rule's vocabulary" % (fi.short, stmt_text(e, 70)))
+
+    if depth == 0:
+        refuse()
+    if isinstance(e, ast.Name):
+        ws = writes_to_name(fi.node, e.id)
+        if len(ws) != 1 or not (isinstance(ws[0], (ast.Assign, ast.AnnAssign)) and getattr(ws[0], "value", None) is not None):
+            refuse()
+        if [k for k, _n in stores_to(fi.node, e.id) if k != "assign"]:
+            refuse()  # the dict is changed after it was built
+        return dict_entry(fi, ws[0].value, key, ws[0], depth - 1)
+    if isinstance(e, ast.Dict):
+        found = None
+        for k, v in zip(e.keys, e.values):
+            if k is None:
+                r = dict_entry(fi, v, key, at, depth - 1)
+                found = r if r is not None else found
+                continue
+            try:
+                kv = norm.consteval(resolve_local(fi.node, k))
+            except norm.NormError:
+                refuse()
+            if kv == key:
+                found = v
+                found._c03_at = at
+        return found
+    if isinstance(e, ast.Call) and chain(e.func) == "dict" and not e.args:
+        found = None
+        for k in e.keywords:
+            if k.arg is None:
+                r = dict_entry(fi, k.value, key, at, depth - 1)
+                found = r if r is not None else found
+            elif k.arg == key:
+                found = k.value
+                found._c03_at = at
+        return found
+    if isinstance(e, ast.BinOp) and isinstance(e.op, ast.BitOr):
+        r = dict_entry(fi, e.right, key, at, depth - 1)
+        return r if r is not None else dict_entry(fi, e.left, key, at, depth - 1)
+    if isinstance(e, ast.DictComp) and len(e.generators) == 1 and not e.generators[0].ifs and isinstance(e.generators[0].target, ast.Name):
+        g = e.generators[0]
+        it = resolve_local(fi.node, g.iter) if isinstance(g.iter, ast.Name) else g.iter
+        vals = _literal_elts(it)
+        if vals is None:
+            refuse()
+        found = None
+        for c in vals:
+            env = {g.target.id: ast.Constant(value=c)}
+            try:
+                kv = norm.consteval(subst(e.key, env))
+            except norm.NormError:
+                refuse()
+            if kv == key:
+                found = subst(e.value, env)
+                found._c03_at = at
+        return found
+    refuse()
+
+
+def kwargs_param(fnode):
+    return fnode.args.kwarg.arg if fnode.args.kwarg is not None else None
+
+
+def mapping_read(fi, e, mapping_name):
+    """(key value, default expr or None, has_default) when e reads one entry of the (never rebound) mapping
+    parameter: m[k], m.get(k[, d]), m.pop(k[, d]); else None.  A non-constant key gives key value None."""
+    if mapping_name is None or writes_to_name(fi.node, mapping_name):
+        return None
+    key = dflt = None
+    has = False
+    if isinstance(e, ast.Subscript) and chain(resolve_local(fi.node, e.value)) == mapping_name:
+        key = e.slice
+    elif isinstance(e, ast.Call) and isinstance(e.func, ast.Attribute) and e.func.attr in ("get", "pop", "__getitem__") and chain(resolve_local(fi.node, e.func.value)) == mapping_name and e.args and not e.keywords:
+        key = e.args[0]
+        if len(e.args) > 1 and e.func.attr != "__getitem__":
+            dflt, has = e.args[1], True
+        elif e.func.attr == "get":
+            dflt, has = ast.Constant(value=None), True
+    else:
+        return None
+    try:
+        kv = norm.consteval(resolve_local(fi.node, key))
+    except norm.NormError:
+        kv = None
+    return kv, dflt, has
+
+
+def reaching_defs(fi, name, use_ast):
+    """Definitions of the local `name` that can reach the statement containing use_ast:
+    -> [write statement, or None for the value the name has at entry (a parameter)].  A write that every path
+    to the use overwrites again does not reach it."""
+    cfg = cfg_of(fi)
+    use = set(cfg.locate(use_ast))
+    ws = writes_to_name(fi.node, name)
+    at = [(w, set(cfg.locate(w))) for w in ws]
+    allw = set()
+    for _, s in at:
+        allw |= s
+    out = []
+    for w, s in at:
+        avoid = (allw - s) - use
+        if not use or any(u in cfg.reach(s, avoid=avoid) for u in use):
+            out.append(w)
+    if not use or any(u in cfg.reach({cfg.entry}, avoid=allw - use, include_src=True) for u in use):
+        out.append(None)
+    return out
+
+
+def guards_mention(fi, stmt, name):
+    """Is the statement dominated by a branch outcome whose condition reads `name`?"""
+    cfg = cfg_of(fi)
+    for nid in cfg.locate(stmt):
+        if any(name in names_in(resolve_local(fi.node, g[0]) if isinstance(g[0], ast.Name) else g[0]) for g in cfg.guards(nid)):
+            return True
+    return False
